@@ -564,6 +564,21 @@ def _classes_to_lean(fn: ast.FunctionDef, tr: Tr, classes: dict) -> str:
     return "\n".join(lines)
 
 
+# which properties' models each translated function is tied to (Props/<pid>Tie.lean)
+TIED_TO = {
+    "checkPeriodConsistency_raises": ["C01", "C03"], "calculateAdd_raises": ["C01", "C03"], "calculateDivide_raises": ["C03"],
+    "calculateDivide_period": ["C03"], "calculateDivide_denominator": ["C03"],
+    "period_size_in_years": ["C04"], "period_size_in_months": ["C04"], "period_size_in_days": ["C04"], "period_size_in_weeks": ["C04"],
+    "period_size_in_weekdays": ["C04"], "period_get_subperiods": ["C04", "C03"], "period_text_finer_refused": ["C05"],
+    "holderSet_raises": ["C03", "C16"], "holderSetInput_refuses": ["C16"], "parameter_get_at_instant": ["C06"],
+    "checkForCycle": ["C01", "C02"], "rate_add_bracket": ["C08", "C09"], "amount_add_bracket": ["C08", "C09"],
+}
+
+
+def functions_for(pid: str) -> list:
+    return [k for k, v in TIED_TO.items() if pid in v]
+
+
 def _chain_to_lean(chain: list, raise_only: bool = False) -> str:
     lines = []
     for cond, act in chain:
